@@ -12,7 +12,8 @@ EXPLANATION = (
     "ctx.idle_timeout() to both is_timeout calls; (2) the idle-timeout error return is dominated by the true edges of is_timeout on both "
     "directions' statistics with the same duration, and is_timeout returns false for a zero duration; (3) incr_sent_bytes/incr_sent_frames "
     "store last_read. Wall-clock accuracy is not decided."
-    ' defaults: for every field of config::Timeouts the fallback of the derived Deserialize for an absent key returns the same constant as impl Default for Timeouts.')
+    ' defaults: for every field of config::Timeouts the fallback of the derived Deserialize for an absent key returns the same constant as impl Default for Timeouts.'
+    ' every path from set_feature(Udp*) to enqueue passes set_idle_timeout(timeouts.udp).')
 RULE_TEXT = "instances = links of the configuration chain, guard edges of the closing condition"
 TRUSTED = ["tokio interval ticks roughly once per second", "system clock"]
 NOT_DECIDED = ["wall-clock accuracy (within the period plus granularity)"]
